@@ -1,17 +1,17 @@
 #!/bin/bash
-# usage: collect_round3.sh <Cnn> <A|B> <suffix> : take /tmp/mut3/<Cnn>_out/<A|B>.* into seeded/<Cnn>_<suffix>/ and confirm it in the scratch worktree /tmp/mut3/<Cnn>
-id=$1; ab=$2; suf=$3; wt=/tmp/mut3/$id; src=/tmp/mut3/${id}_out; dst=/verif/seeded/${id}_$suf
+# usage: collect_round.sh <dir> <Cnn> <A|B> <suffix> <round> : take <dir>/<Cnn>_out/<A|B>.* into seeded/<Cnn>_<suffix>/ and confirm it in the scratch worktree <dir>/<Cnn> (moved to the current HEAD of /repo first)
+root=$1; id=$2; ab=$3; suf=$4; round=$5; wt=$root/$id; src=$root/${id}_out; dst=/verif/seeded/${id}_$suf
 [ -f $src/$ab.patch.diff ] || { echo "$id $ab: no patch"; exit 1; }
 mkdir -p $dst/demo
 cp $src/$ab.patch.diff $dst/patch.diff; cp $src/$ab.demo.py $dst/demo/demo.py; cp $src/$ab.meta.json $dst/agent_meta.json
-cd $wt && git checkout -q -- . && git clean -fdxq
+cd $wt && git checkout -q -- . && git clean -fdxq && git checkout -q --detach $(git -C /repo rev-parse HEAD)
 export PYTHONSAFEPATH=1 MYPY_CACHE_DIR=$wt/.mypy_cache_x STUBGEN_SRC=$wt/src PYTHONPATH=$wt/src PYTHONHASHSEED=0
 timeout 900 /venv/bin/python $dst/demo/demo.py > $dst/demo_without_patch.log 2>&1; rc_without=$?
 git apply $dst/patch.diff || { echo "$dst: patch does not apply"; exit 1; }
 timeout 900 /venv/bin/python $dst/demo/demo.py > $dst/demo_with_patch.log 2>&1; rc_with=$?
 /venv/bin/python -m pytest -q -p no:cacheprovider --timeout=900 -q tests --junitxml=$dst/junit_with_patch.xml > /dev/null 2>&1
 git checkout -q -- . ; git clean -fdxq
-python3 - $dst $rc_with $rc_without $id $suf <<'PY'
+python3 - $dst $rc_with $rc_without $id $suf $round <<'PY'
 import sys, json, xml.etree.ElementTree as ET
 dst, rc_with, rc_without, pid, suf = sys.argv[1], int(sys.argv[2]), int(sys.argv[3]), sys.argv[4], sys.argv[5]
 ok = set()
@@ -21,10 +21,10 @@ for tc in ET.parse(dst + "/junit_with_patch.xml").iter("testcase"):
 base = set(json.load(open("/root/.vp/BASELINE.json"))["stable_pass"])
 am = json.load(open(dst + "/agent_meta.json"))
 meta = {"id": f"{pid}_{suf}", "property": pid, "summary": am.get("summary"), "needs_to_manifest": am.get("needs_to_manifest"),
-        "origin": "independent sub-agent (round 3) given only the property text and a scratch worktree",
+        "origin": "independent sub-agent (round " + sys.argv[6] + ") given only the property text and a scratch worktree",
         "confirmed": {"demo_exit_with_patch": rc_with, "demo_exit_without_patch": rc_without,
                       "baseline_tests_still_passing": f"{len(base & ok)}/{len(base)}", "all_tests_passing_with_patch": len(ok)},
-        "what_was_run": "tools/collect_round3.sh: demo/demo.py without and with the patch in the scratch worktree; full pytest run with the patch compared with BASELINE.json stable_pass"}
+        "what_was_run": "tools/collect_round.sh: demo/demo.py without and with the patch in the scratch worktree; full pytest run with the patch compared with BASELINE.json stable_pass"}
 json.dump(meta, open(dst + "/meta.json", "w"), indent=1)
 print(dst, "demo with patch rc", rc_with, "without", rc_without, "baseline kept", len(base & ok), "/", len(base), "passing", len(ok))
 PY
